@@ -29,6 +29,177 @@ ALU16 = "cpx lds ldx".split()
 ST16 = "sts stx".split()
 
 
+# --------------------------------------------------------------------------
+# order of the ORG blocks in the source / of the records in the hex file
+#
+# The generators lay a program out in ascending addresses.  All labels are absolute (L<address>) and every statement has a fixed
+# size, so the source can be cut at every block start and at every `org` and the pieces written in ANY order, each behind its own
+# `org`: the memory image stays the same, the order of the records in the code file - and therefore in p2hex's output, which keeps
+# it - changes.  dasl's `-hexfile` has to build the same image from every such file.
+
+BLOCK_MARK = ";@blk "       # comment line the generators put at every block start: `;@blk <address>`
+SEG_ORG_RE = re.compile(r"^\s*org\s+(\S+)\s*$", re.I)
+SRC_ORDERS = ("ascending", "descending", "shuffled", "interleaved", "rotated", "one-displaced")
+
+
+def _num(tok):
+    t = tok.lower()
+    if t.startswith("$"):
+        return int(t[1:], 16)
+    if t.endswith("h"):
+        return int(t[:-1], 16)
+    return int(t)
+
+
+def source_segments(src):
+    """(cpu line, [(address, [lines])]): the source cut at every `org` line and at every block marker (empty pieces dropped)"""
+    lines = src.rstrip("\n").split("\n")
+    segs, cur = [], None
+    for l in lines[1:]:
+        m = SEG_ORG_RE.match(l)
+        if m:
+            cur = (_num(m.group(1)), [])
+            segs.append(cur)
+        elif l.startswith(BLOCK_MARK):
+            cur = (int(l[len(BLOCK_MARK):]), [])
+            segs.append(cur)
+        else:
+            cur[1].append(l)
+    return lines[0], [sg for sg in segs if sg[1]]
+
+
+def permute(rng, xs, order):
+    """the list in one of the orders of SRC_ORDERS"""
+    xs = list(xs)
+    if order == "descending":
+        xs.reverse()
+    elif order == "shuffled":
+        rng.shuffle(xs)
+    elif order == "interleaved":
+        xs = xs[0::2] + xs[1::2] if rng.random() < 0.5 else xs[1::2] + xs[0::2]
+    elif order == "rotated" and len(xs) > 1:
+        k = rng.randrange(1, len(xs))
+        xs = xs[k:] + xs[:k]
+    elif order == "one-displaced" and len(xs) > 1:
+        x = xs.pop(rng.randrange(len(xs)))
+        xs.insert(rng.randrange(len(xs) + 1), x)
+    return xs
+
+
+def reorder_source(rng, case, order):
+    """the same program with its ORG blocks written in another order (in place; the order is recorded in case['src_order'])"""
+    head, segs = source_segments(case["source"])
+    case["src_order"] = "ascending"
+    if order == "ascending" or len(segs) < 2:
+        return case
+    segs2 = permute(rng, segs, order)
+    if [a for a, _ in segs2] == [a for a, _ in segs]:
+        return case
+    out = [head]
+    for a, ls in segs2:
+        out.append("\torg %d" % a)
+        out += ls
+    case["source"] = "\n".join(out) + "\n"
+    case["src_order"] = order
+    case["feats"] = set(case["feats"]) | {"org-order-" + order}
+    return case
+
+
+def pick_src_order(rng):
+    return "ascending" if rng.random() < 0.4 else rng.choice(SRC_ORDERS[1:])
+
+
+def pick_load(rng):
+    return rng.choice(["bin", "bin", "hex", "hex", "hex", "hexhand"])
+
+
+def ihex_record(addr, data, typ=0):
+    body = bytes([len(data), (addr >> 8) & 255, addr & 255, typ]) + bytes(data)
+    return ":" + (body + bytes([(-sum(body)) & 255])).hex().upper()
+
+
+def handmade_ihex(rng, mem):
+    """an Intel-hex file (text, shape) for the memory [(start, bytes)], written by the harness instead of p2hex: record length,
+    record order and the additional records are random; every byte of the memory is in exactly one data record"""
+    flat = {}
+    for st, d in mem:
+        for i, x in enumerate(d):
+            flat[st + i] = x
+    runs = []
+    for a in sorted(flat):
+        if runs and runs[-1][0] + len(runs[-1][1]) == a:
+            runs[-1][1].append(flat[a])
+        else:
+            runs.append((a, [flat[a]]))
+    maxlen = rng.choice([1, 2, 3, 7, 16, 16, 16, 32, 64])
+    per_run = []
+    for st, d in runs:
+        recs, i = [], 0
+        while i < len(d):
+            n = maxlen if rng.random() < 0.6 else rng.randrange(1, maxlen + 1)
+            recs.append((st + i, d[i:i + n]))
+            i += n
+        per_run.append(recs)
+    shape = rng.choice(["ascending", "runs-descending", "runs-shuffled", "runs-interleaved", "descending", "shuffled", "interleaved", "one-displaced"])
+    if shape.startswith("runs-"):
+        # whole address runs change places, the records of a run stay in ascending order (what p2hex writes for re-ordered ORG blocks)
+        recs = [r for run in permute(rng, per_run, shape[5:]) for r in run]
+    else:
+        recs = permute(rng, [r for run in per_run for r in run], shape)
+    lines = [ihex_record(a, d) for a, d in recs]
+    extras = []
+    if rng.random() < 0.2:
+        # empty data records (allowed by the format, they carry no byte)
+        for _ in range(rng.randrange(1, 3)):
+            lines.insert(rng.randrange(len(lines) + 1), ihex_record(rng.choice([0, recs[0][0], recs[-1][0] + 1, rng.randrange(0x10000)]), b""))
+        extras.append("empty-records")
+    if rng.random() < 0.2:
+        # start address records (03: CS:IP, 05: linear) and base records with value 0: no memory content
+        ent = recs[0][0]
+        lines.insert(rng.randrange(len(lines) + 1), rng.choice([ihex_record(0, bytes([0, 0, ent >> 8, ent & 255]), 3),
+                                                                ihex_record(0, bytes([0, 0, ent >> 8, ent & 255]), 5),
+                                                                ihex_record(0, bytes([0, 0]), 2), ihex_record(0, bytes([0, 0]), 4)]))
+        extras.append("other-record-types")
+    lines.append(ihex_record(0, b"", 1))
+    return "\n".join(lines) + "\n", shape, extras
+
+
+def ihex_data_records(text):
+    out = []
+    for line in text.split("\n"):
+        line = line.strip()
+        if not line.startswith(":"):
+            continue
+        b = bytes.fromhex(line[1:])
+        if b[3] == 0:
+            out.append(((b[1] << 8) | b[2], b[4:4 + b[0]]))
+    return out
+
+
+def ihex_ascending(text):
+    """no data record starts below the end of the record before it"""
+    end = 0
+    for a, d in ihex_data_records(text):
+        if a < end:
+            return False
+        end = a + len(d)
+    return True
+
+
+def split_instruction(chunks_, listing):
+    """address of a listing line whose bytes lie in two adjacent chunks of the loaded image (harness plumbing for the attribution
+    of the recorded defect of RetrieveCodeFromChunkList), or None"""
+    sp = split_lines(chunks_, listing)
+    return min(sp) if sp else None
+
+
+def split_lines(chunks_, listing):
+    """addresses of all listing lines whose bytes lie in two adjacent chunks of the loaded image"""
+    ends = {st + len(d) for st, d in chunks_ if len(d)}
+    seams = {st for st, d in chunks_ if len(d) and st in ends}
+    return {a for a, (_t, n) in listing.items() if any(a < b < a + n for b in seams)}
+
+
 def _i(kind, size, text=None, **kw):
     d = dict(kind=kind, size=size, text=text)
     d.update(kw)
@@ -129,6 +300,7 @@ def layout_4004(rng, items, start, feats, allow_isz_fe):
             lines.append("\torg %d" % (it["addr"] + it["size"]))
             continue
         if k == "blockstart":
+            lines.append(BLOCK_MARK + str(it["addr"]))
             continue
         lab = "L%04X:" % it["addr"] if it["addr"] in used and k != "data" else ""
         if lab and lab in lines_labels(lines):
@@ -268,6 +440,7 @@ def gen_6800(rng, feature=None):
             lines.append("\torg %d" % (it["addr"] + it["size"]))
             continue
         if k == "blockstart":
+            lines.append(BLOCK_MARK + str(it["addr"]))
             continue
         lab = ""
         if it["addr"] in used and k != "data" and it["addr"] not in seen:
@@ -297,22 +470,20 @@ def mem_of_pfile(path):
 
 
 def chunks_of_ihex(text):
-    """chunks as `-hexfile` builds them: consecutive data records are joined while contiguous"""
+    """chunks as `-hexfile` builds them: a data record is joined to the chunk being collected when it starts at its end
+    (harness plumbing: the image the checks use comes from the Lean driver, see Driver/C15.lean `hex:`)"""
     out = []
-    for line in text.split("\n"):
-        line = line.strip()
-        if not line.startswith(":"):
-            continue
-        b = bytes.fromhex(line[1:])
-        n, a, t = b[0], (b[1] << 8) | b[2], b[3]
-        if t != 0 or n == 0:
-            continue
-        d = b[4:4 + n]
-        if out and out[-1][0] + len(out[-1][1]) == a:
-            out[-1] = (out[-1][0], out[-1][1] + d)
+    cur = (0, b"")
+    for a, d in ihex_data_records(text):
+        if cur[0] + len(cur[1]) == a:
+            cur = (cur[0], cur[1] + d)
         else:
-            out.append((a, d))
-    return out
+            if cur[1]:
+                out.append(cur)
+            cur = (a, d)
+    if cur[1]:
+        out.append(cur)
+    return sorted(out, key=lambda c: c[0])
 
 
 def asm(bdir, wd, name, text, cpu=None):
@@ -328,8 +499,32 @@ def asm(bdir, wd, name, text, cpu=None):
     return mem_of_pfile(pf), ""
 
 
+SPLIT_SIG = "dasl-instruction-across-hex-chunks"
 ORG_RE = re.compile(rb"^(\s*org\s+)\$([0-9A-Fa-f]+)\s*$", re.M)
 IND_RE = re.compile(rb"^indirect address @ [^\n]*\n", re.M)
+
+
+def make_hexfile(bdir, wd, base, pf, mem, load, case):
+    """the Intel-hex file of a case: written by p2hex (`hex`), by the harness (`hexhand`: case['hexhand_rng'] or the stored
+    case['hexfile_text']).  -> (path, image token for the driver, info, error)"""
+    hf = os.path.join(wd, base + ".hex")
+    info = {}
+    if load == "hexhand":
+        if case.get("hexfile_text"):
+            text, info["hex_shape"], info["hex_extras"] = case["hexfile_text"], case.get("hex_shape", "stored"), case.get("hex_extras", [])
+        else:
+            text, info["hex_shape"], info["hex_extras"] = handmade_ihex(case["hexhand_rng"], mem)
+        open(hf, "w").write(text)
+    else:
+        rc, so, se = common.run_tool(bdir, "p2hex", [pf, hf, "-F", "Intel", "-q"], wd)
+        if rc != 0:
+            return None, None, None, "p2hex failed: %s" % (so + se)[-200:]
+        text = open(hf).read()
+        info["hex_shape"] = "p2hex"
+    info["hexfile_text"] = text
+    info["hex_ascending"] = ihex_ascending(text)
+    info["hex_chunks"] = [(a, len(d)) for a, d in chunks_of_ihex(text)]
+    return hf, "hex:" + text.encode("latin-1").hex(), info, None
 
 
 def run_case(bdir, wd, idx, case, load, lower):
@@ -339,6 +534,7 @@ def run_case(bdir, wd, idx, case, load, lower):
     if mem is None:
         return dict(genfail="generator produced source asl rejects: " + err[-300:])
     pf = os.path.join(wd, base + ".p")
+    hexinfo = {}
     if load == "bin":
         bf = os.path.join(wd, base + ".bin")
         rc, so, se = common.run_tool(bdir, "p2bin", [pf, bf, "-q"], wd)
@@ -348,11 +544,9 @@ def run_case(bdir, wd, idx, case, load, lower):
         image = [(start, open(bf, "rb").read())]
         loadargs = ["-binfile", "%s@%d" % (bf, start)]
     else:
-        hf = os.path.join(wd, base + ".hex")
-        rc, so, se = common.run_tool(bdir, "p2hex", [pf, hf, "-F", "Intel", "-q"], wd)
-        if rc != 0:
-            return dict(genfail="p2hex failed: %s" % (so + se)[-200:])
-        image = chunks_of_ihex(open(hf).read())
+        hf, image, hexinfo, err = make_hexfile(bdir, wd, base, pf, mem, load, case)
+        if hf is None:
+            return dict(genfail=err)
         loadargs = ["-hexfile", hf]
     eargs = []
     etoks = []
@@ -366,7 +560,8 @@ def run_case(bdir, wd, idx, case, load, lower):
     args = (["-h"] if lower else []) + ["-cpu", case["cpu"]] + loadargs + eargs
     rc, so, se = common.run_tool(bdir, "dasl", args, wd, timeout=30)
     info = dict(dasl_args=[os.path.basename(a) if os.path.isabs(a) else a for a in args], dasl_rc=rc, source=case["source"], load=load,
-                feats=sorted(case["feats"]), dasl_stdout=so.decode("latin-1")[:6000], dasl_stderr=se.decode("latin-1")[:600])
+                src_order=case.get("src_order", "ascending"),
+                feats=sorted(case["feats"]), dasl_stdout=so.decode("latin-1")[:6000], dasl_stderr=se.decode("latin-1")[:600], **hexinfo)
     if rc == "timeout" or (isinstance(rc, int) and rc < 0):
         return dict(crash="dasl status %s" % rc, info=info)
     # ---- round trip: dasl's stdout, unchanged, to the real assembler
@@ -390,8 +585,12 @@ def run_case(bdir, wd, idx, case, load, lower):
 
     def chunks(cs):
         return "%d %s" % (len(cs), " ".join("%d %s" % (a, bytes(d).hex() or "-") for a, d in cs)) if cs else "0"
+    if hexinfo:
+        # an instruction of the listing that lies in two adjacent chunks of the image (records that were not joined while loading)
+        from .c15_87c import parse_listing
+        info["split_instruction"] = split_instruction(chunks_of_ihex(hexinfo["hexfile_text"]), parse_listing(so))
     req = "%s %d %s %d %s %d %s %s %s" % (
-        case["cpu"], 1 if lower else 0, chunks(image), len(etoks), " ".join(etoks), rc if isinstance(rc, int) else 99,
+        case["cpu"], 1 if lower else 0, image if isinstance(image, str) else chunks(image), len(etoks), " ".join(etoks), rc if isinstance(rc, int) else 99,
         so.hex() or "-", se.hex() or "-", ("none" if re2 is None else chunks(re2)))
     return dict(req=req, info=info, unchanged_ok=re1 is not None, rewritten_ok=re2 is not None, rewrites=rewrites)
 
@@ -635,7 +834,7 @@ def run(args):
     rng = common.rng_for(args.seed, "C15")
     n = {"quick": 260, "thorough": 6000}[args.tier]
     spec_fail, corr_fail, samples = [], [], []
-    dist = dict(cases=0, cpu4004=0, cpu6800=0, bin=0, hex=0, lower=0, entries={1: 0, 2: 0, 3: 0, 4: 0}, vector=0, embedded_data=0, gap=0,
+    dist = dict(cases=0, cpu4004=0, cpu6800=0, bin=0, hex=0, hexhand=0, hex_not_ascending=0, hex_shapes={}, src_orders={}, hex_split_instruction=0, lower=0, entries={1: 0, 2: 0, 3: 0, 4: 0}, vector=0, embedded_data=0, gap=0,
                 areas_code=0, areas_data=0, bytes_disassembled=0, instructions_traced=0, unchanged_reassembly_ok=0, rewritten=0,
                 sweep_opcodes=0, sweep_reassembled=0, genfail=0, feature_cases=0,
                 sweep68_batches=0, sweep68_instructions=0, sweep68_roundtrip_ok=0, sweep68_known_bad=0, sweep68_opcodes=0, sweep68_labels=0, cut_probes=0)
@@ -656,11 +855,28 @@ def run(args):
                     d["feats"] = set(d.get("feats", []))
                     d["entries"] = [tuple(e) for e in d["entries"]]
                     cases.append((d, d.get("load", "bin"), False, "corpus:" + f))
+        # the order of the ORG blocks in the source (= of the records p2hex writes) and the way the image is handed to dasl; the
+        # first cases of every run are the non-ascending p2hex files and the harness-written hex files, for both CPUs
+        forced = [(o, l) for o in ("descending", "shuffled", "interleaved") for l in ("hex",)] + [("ascending", "hexhand"), ("descending", "hexhand")]
+        nfeat = 5
         for i, (cpu, feat) in enumerate(plan):
             c = gen_4004(rng, feat) if cpu == "4004" else gen_6800(rng, feat)
-            load = rng.choice(["bin", "hex"])
+            load = pick_load(rng)
+            order = pick_src_order(rng)
+            k = (i - nfeat) // 2
+            if feat is None and 0 <= k < len(forced):
+                order, load = forced[k]
+                for _ in range(30):     # these cases need blocks that can change places
+                    if len(source_segments(c["source"])[1]) >= 3:
+                        break
+                    c = gen_4004(rng, feat) if cpu == "4004" else gen_6800(rng, feat)
+            if feat == "isz-fe":
+                order = "ascending"
+            tag = "gen:%d:%s:%s" % (i, cpu, feat or "-")
+            reorder_source(common.rng_for(args.seed, "C15-order:" + tag), c, order)
+            c["hexhand_rng"] = common.rng_for(args.seed, "C15-hexhand:" + tag)
             lower = rng.random() < 0.15
-            cases.append((c, load, lower, "gen:%d:%s:%s" % (i, cpu, feat or "-")))
+            cases.append((c, load, lower, tag))
         reqs, metas = [], []
         for idx, (c, load, lower, tag) in enumerate(cases):
             r = run_case(bdir, wd, idx, c, load, lower)
@@ -713,6 +929,9 @@ def run(args):
             return "deco68-extended-zero-page"
         if "jcn-at-page-end" in f and "jump distance too big" in (r["info"].get("reasm_rewritten", "") + r["info"].get("reasm_unchanged", "")):
             return "jcn-forward-label-page-end-4004"
+        if r["info"].get("split_instruction") is not None and kv.get("text") == "eq" and kv.get("err") == "eq":
+            # dasl behaves exactly as the transcription of the unchanged das.c/codechunks.c, and an instruction lies across two chunks
+            return SPLIT_SIG
         return None
 
     for (c, load, lower, tag, r), ans in zip(metas, a1):
@@ -721,6 +940,11 @@ def run(args):
         dist["cases"] += 1
         dist["cpu" + c["cpu"]] += 1
         dist[load] += 1
+        if load != "bin":
+            dist["hex_not_ascending"] += int(not info.get("hex_ascending", True))
+            dist["hex_shapes"][info.get("hex_shape", "?")] = dist["hex_shapes"].get(info.get("hex_shape", "?"), 0) + 1
+            dist["hex_split_instruction"] += int(info.get("split_instruction") is not None)
+        dist["src_orders"][info.get("src_order", "ascending")] = dist["src_orders"].get(info.get("src_order", "ascending"), 0) + 1
         dist["lower"] += int(lower)
         ne = min(4, max(1, len(c["entries"])))
         dist["entries"][ne] += 1
@@ -737,6 +961,9 @@ def run(args):
         dist["rewritten"] += int(bool(r["rewrites"]))
         distinct.add(info["dasl_stdout"])
         verdict = {k: v for k, v in kv.items() if k not in ("mtext", "merr")}
+        if "error" in kv:
+            proof_problems.append("driver c15 cannot read its request for %s: %s" % (tag, kv["error"]))
+            continue
         if len(samples) < 4 and int(kv.get("ninstr", 0)) >= 5 and (len(samples) % 2 == 0) == (c["cpu"] == "4004"):
             samples.append(dict(tag=tag, load=load, entries=c["entries"], source=c["source"][:500], dasl_stdout=info["dasl_stdout"][:700], verdict=verdict))
         common_fields = dict(tag=tag, verdict=verdict, **info)
@@ -755,7 +982,12 @@ def run(args):
         if kv.get("bytes") == "fail":
             spec_fail.append(dict(sig=fsig, why="re-assembled bytes differ from the image at address %s" % kv.get("bad"), **common_fields))
         if kv.get("inside") != "ok" or kv.get("disjoint") != "ok":
-            spec_fail.append(dict(sig=None, why="reported areas not inside the image / not disjoint: inside=%s disjoint=%s" % (kv.get("inside"), kv.get("disjoint")), **common_fields))
+            # (a wrongly fetched jump target sends the trace into data / past the end of the image: consequence of SPLIT_SIG)
+            spec_fail.append(dict(sig=fsig if fsig == SPLIT_SIG else None,
+                                  why="reported areas not inside the image / not disjoint: inside=%s disjoint=%s" % (kv.get("inside"), kv.get("disjoint")), **common_fields))
+        if kv.get("entry") != "ok":
+            spec_fail.append(dict(sig=fsig if fsig == SPLIT_SIG else None, why="an entry address that lies inside the loaded image is not part of any code area dasl reports "
+                                  "(the program was not disassembled starting at its entry points)", **common_fields))
         # (B) model against the real run
         if kv.get("text") != "eq" or kv.get("err") != "eq" or kv.get("rc") != "eq" or kv.get("areas") != "eq" or kv.get("hang") != "0":
             mt = bytes.fromhex(kv["mtext"]).decode("latin-1") if kv.get("mtext", "-") not in ("-", "") else ""
@@ -847,13 +1079,18 @@ def run(args):
         "translate/tables.py (OpcodeList[256] of deco4004.c/deco68.c via compiled dumper, InitFields() call list of code4004.c via clang-14 AST)",
         "correspondence: real dasl vs Model.Dis (text, stderr, areas) on generated images and on one image per opcode (differential test)",
         "round trip through the real asl/p2bin/p2hex/dasl (oracle run, not a proof)",
+        "-hexfile: real dasl (stdout, stderr incl. `code chunk overlap`, areas) vs Model/Dis/HexLoad.lean (das.c CMD_HexFile) on the text of every hex file; "
+        "the memory the areas are judged against comes from the independent Intel-HEX decoder Spec/Hex.lean (C15_hexload_file ties the two together)",
         "6800 instruction sweep: real dasl text vs M6800.decode, real asl bytes vs A6800.assemble, real round trip vs C15_6800_roundtrip/"
         "C15_6800_exclusions_exact on every known opcode x operand samples (differential test of the two models the theorems are about)"])
     res.coverage.update(
         evaluations=len(reqs) + len(sreqs) + len(b68_reqs), distinct_nontrivial=len(distinct),
         rule="random valid 4004/4040 and 6800 programs (blocks ending in jun/bbl resp. bra/jmp/rts/rti, branches and calls to instruction starts inside the image, "
-             "embedded data after terminal instructions, org gaps, 1..4 entry addresses, 6800 vector entries), image loaded via -binfile@start or Intel-hex -hexfile, "
-             "optionally -h; distinct = distinct dasl listings; non-trivial = every listing contains at least one traced instruction; plus one image per known opcode; "
+             "embedded data after terminal instructions, org gaps, 1..4 entry addresses, 6800 vector entries), the ORG blocks of the source written in ascending, "
+             "descending, shuffled, interleaved, rotated or one-displaced order (adjacent and gapped blocks), image loaded via -binfile@start, via the Intel-hex file p2hex "
+             "writes (it keeps the record order of the code file) or via a hex file written by the harness (record length 1..64, records/address runs ascending, "
+             "descending, shuffled, interleaved, one displaced; empty data records; 02/03/04/05 records without memory content), "
+             "optionally -h; for -hexfile the model image is built from the file's text by Model/Dis/HexLoad.lean and the SPEC memory by Spec/Hex.lean decodeIhex;  distinct = distinct dasl listings; non-trivial = every listing contains at least one traced instruction; plus one image per known opcode; "
              "plus (6800) every known opcode x boundary/random operand bytes on a 4-byte raster at $1000 and up to $FFFF (thorough: also page zero and $8000), each one an entry address",
         samples=samples, samples_6800_sweep=samples68_ev, distribution=dist, sweep_not_reassemblable=sweep_bad, exhaustive=False)
     res.assumptions = ["re-assembly is done with `asl -cpu 4040` for dasl's CPU 4004 (dasl prints no CPU line and decodes the 4040 extensions) and `-cpu 6800`",
@@ -898,6 +1135,11 @@ def replay(args):
             pf = os.path.join(wd, "c0.p")
             common.run_tool(bdir, "p2bin", [pf, os.path.join(wd, "c0.bin"), "-q"], wd)
             common.run_tool(bdir, "p2hex", [pf, os.path.join(wd, "c0.hex"), "-F", "Intel", "-q"], wd)
+            if d.get("load") == "hexhand" and d.get("hexfile_text"):
+                open(os.path.join(wd, "c0.hex"), "w").write(d["hexfile_text"])      # the hex file the harness wrote
+            if d.get("load") in ("hex", "hexhand"):
+                print("hex file given to dasl (%s):" % d.get("hex_shape"))
+                print(open(os.path.join(wd, "c0.hex")).read())
             a = [os.path.join(wd, re.sub(r"^c\d+\.", "c0.", x)) if re.match(r"^c\d+\.(bin|hex)", x) else x for x in d["dasl_args"]]
             rc, so, se = common.run_tool(bdir, "dasl", a, wd)
             print("dasl rc =", rc)
